@@ -232,10 +232,52 @@ func validateBounds(p *Program, V *ssa.Function) map[string]int64 {
 			bounds[k] = c
 		}
 	}
+	taLen := newTaint(p) // only for its type-flow dispatch helper
 	for _, b := range V.Blocks {
 		iff, ok := b.Instrs[len(b.Instrs)-1].(*ssa.If)
 		if !ok {
 			continue
+		}
+		// f.Len() > C for f ranging over a literal list of the receiver's fields (interface dispatch): the bound holds
+		// for every field in the list whose Len is len()
+		if bo, ok := iff.Cond.(*ssa.BinOp); ok && (bo.Op == token.GTR || bo.Op == token.GEQ) {
+			if c, okc := constInt(bo.Y); okc {
+				if lc, ok := stripAllConv(bo.X).(*ssa.Call); ok && lc.Common().IsInvoke() && lc.Common().Method.Name() == "Len" {
+					if errOnlyBlock(V, b.Succs[0]) && callOnEveryAcceptPath(V, lc) {
+						lim := c
+						if bo.Op == token.GEQ {
+							lim = c - 1
+						}
+						for _, src := range ifaceSources(lc.Common().Value) {
+							mi, ok := src.(*ssa.MakeInterface)
+							if !ok {
+								continue
+							}
+							fld, base, okf := loadedField(mi.X)
+							if !okf || !sameObject(base, recv) {
+								continue
+							}
+							lenIsLen := false
+							for _, lf := range taLen.dispatch(V, mi, "Len") {
+								if ssaLenIsLen(lf) {
+									lenIsLen = true
+								} else {
+									lenIsLen = false
+									break
+								}
+							}
+							if !lenIsLen {
+								continue
+							}
+							if isStringList(fld.Type()) {
+								set("cnt:"+fld.Name(), lim)
+							} else {
+								set("len:"+fld.Name(), lim)
+							}
+						}
+					}
+				}
+			}
 		}
 		// direct comparisons: subject > C  -> error
 		if bo, ok := iff.Cond.(*ssa.BinOp); ok {
